@@ -256,7 +256,7 @@ PLANS = {
                    # the Python binding keeps state of its own (per-call mode override, out= lists): the history part of
                    # C19's driver runs here too; only its history kinds are judged under this property
                    dict(main_stage(60, 240, tier, name="pyhist", shards=8), needs=["py", "cli"], extra=["--prop-alias", "C19", "--scale", "2"],
-                        kinds_re="^python_(history|mode_override)$")],
+                        kinds_re="^(python_(history|mode_override)|cli_rejected_line)$")],
         "require": ["worlds_with_regex_debug_errors_possible", "history_analyses_failed_by_a_provider_error", "probes_compared_after_input_plugin_failures", "analyses_refused_by_an_input_text_plugin_with_edits_pending", "truncated_images_used", "analyses_failed_after_the_path_was_found", "probes_compared_after_late_failures", "history_operations", "probes_compared", "history_analyses_rejected", "histories_completed", "pyhist.py_history_probes", "pyhist.py_override_checks"],
         "rule": "seeded worlds (random plugin stacks incl. MeCab / regex OOV, path-rewrite plugins in 1 of 3) x histories of 5-40 operations on "
                 "ONE long-lived StatefulTokenizer + reused MorphemeList + reused split list: set_mode, set_subset (random of the 1,024 subsets; "
